@@ -1964,10 +1964,15 @@ class ProjectFileParser:
         if preprocess_macros:
             text = preprocess_tjp(text)
 
-        tree = self.parser.parse(text)
-        data = TJPTransformer().transform(tree)
-        builder = ModelBuilder()
-        project = builder.build(data)
+        try:
+            tree = self.parser.parse(text)
+            data = TJPTransformer().transform(tree)
+            builder = ModelBuilder()
+            project = builder.build(data)
+        except RecursionError:
+            # Hundreds of nested blocks exhaust the interpreter's recursion limit in the
+            # tree transformer: reject the text instead of leaking the internal error.
+            raise ValueError("Project file is nested too deeply") from None
 
         # Schedule the project to compute task dates
         if schedule:
